@@ -474,6 +474,18 @@ def scratch(ctx, d6):
             d6.fail('Mixture.' + name, 'no-load', 'the solver no longer loads the free-energy arguments', f, f.node)
             continue
         rest = body[li[0] + 1:]
+        # statements that cannot raise may stand between the load and the try: a plain function definition (no decorators, no defaults
+        # to evaluate), pass, a local bound to a constant
+        def _inert(st_):
+            if isinstance(st_, ast.FunctionDef):
+                a_ = st_.args
+                return not st_.decorator_list and not a_.defaults and not any(d is not None for d in a_.kw_defaults) and st_.returns is None \
+                    and not any(x.annotation is not None for x in a_.args + a_.kwonlyargs)
+            if isinstance(st_, ast.Pass):
+                return True
+            return isinstance(st_, ast.Assign) and all(isinstance(t, ast.Name) for t in st_.targets) and isinstance(st_.value, ast.Constant)
+        while rest and _inert(rest[0]):
+            rest = rest[1:]
         okk = len(rest) == 1 and isinstance(rest[0], ast.Try) and any(
             isinstance(x, ast.Call) and src(x.func) == 'self._free_energy_args.clear' for s_ in rest[0].finalbody for x in ast.walk(s_))
         if okk:
